@@ -580,7 +580,13 @@ class Gen:
                 lo = r.choice([0x41, 0x100, 0x4e00])
                 rngs = [(lo + 4 * i, lo + 4 * i + r.randint(0, 2)) for i in range(r.randint(10, 14))]
                 cls = ('set', rngs)
-                big_rules.append({'re': ('plus', cls), 'ctx': None, 'kind': 'simple:90'})
+                if o['p_ctx'] > 0 and r.random() < 0.6:
+                    # a single character of the big class under a right context, above a rule that covers only part of
+                    # the class: when the context fails the rest of the candidate list must still be tried, per range
+                    big_rules.append({'re': cls, 'ctx': ('char', 0x21), 'kind': 'simple:96'})
+                    big_rules.append({'re': ('set', rngs[2:5]), 'ctx': None, 'kind': 'simple:97'})
+                else:
+                    big_rules.append({'re': ('plus', cls), 'ctx': None, 'kind': 'simple:90'})
                 big_rules.append({'re': ('cat', ('char', 0x61), ('diff', ('any',), cls)), 'ctx': None, 'kind': 'simple:91'})
             elif kind_b == 'deep':
                 re = ('char', self.char())
@@ -843,6 +849,8 @@ class Gen:
                         s.append(r.choice(others))
                 self.bump('long_input')
             s = [c for c in s if 0 <= c <= 0x10FFFF and not (0xD800 <= c <= 0xDFFF)][:(120 if long_one else max_len * 2)]
+            if self.o['wide'] and r.random() < 0.06:
+                s = [0xFEFF] + s            # a byte order mark is a character like any other
             if self.o['wide'] and r.random() < 0.5 and s:
                 pos = r.randrange(len(s) + 1)
                 s = s[:pos] + [r.choice([0x0a, 0x09, 0xe9, 0x4e2d, 0x1f600, 0x301] + others[9:])] + s[pos:]
